@@ -46,6 +46,13 @@ ReadLoop(input, k) ==
 ImplQuery(input) == ReadLoop(input, 1)
 
 
+\* the bytes a character of the input stream arrived as (RFC 3629 for a utf-8 stream; one byte for latin-1)
+Utf8Bytes(cp) == IF cp < 128 THEN <<cp>>
+                 ELSE IF cp < 2048 THEN <<192 + (cp \div 64), 128 + (cp % 64)>>
+                 ELSE IF cp < 65536 THEN <<224 + (cp \div 4096), 128 + ((cp \div 64) % 64), 128 + (cp % 64)>>
+                 ELSE <<240 + (cp \div 262144), 128 + ((cp \div 4096) % 64), 128 + ((cp \div 64) % 64), 128 + (cp % 64)>>
+ArrivedAs(chars, encoding) == IF encoding = "utf-8" THEN FlattenSeq([k \in 1..Len(chars) |-> Utf8Bytes(chars[k])]) ELSE chars
+
 (* L1 verdict.  e.extra, e.report (bytes), e.row, e.col (1-based as reported), e.trailing; observed:
    e.k ("ok"/"exc"), e.t, e.ret, e.calls (sequence of byte strings given to the callback), e.rest (unread input) *)
 QueryVerdict(e) ==
@@ -54,7 +61,7 @@ QueryVerdict(e) ==
   ELSE IF e.k # "ok" THEN "QueryRaised"
   ELSE IF e.ret # <<e.row - 1, e.col - 1>> THEN "ReturnsReportedPosition"
   ELSE IF e.extra = <<>> /\ e.calls # <<>> THEN "CallbackWithoutExtraBytes"
-  ELSE IF e.extra # <<>> /\ FlattenSeq(e.calls) # e.extra THEN "CallbackGetsExactlyPrecedingBytes"
+  ELSE IF e.extra # <<>> /\ FlattenSeq(e.calls) # ArrivedAs(e.extra, e.enc) THEN "CallbackGetsExactlyPrecedingBytes"
   ELSE IF e.rest # e.trailing THEN "ConsumesNothingAfterReport"
   ELSE "ok"
 
